@@ -1,8 +1,10 @@
 From Coq Require Import ExtrOcamlBasic.
-From ChibiV Require Import Common.ExtractBase C12.Model C12.Spec.
+From ChibiV Require Import Common.ExtractBase C12.Model C12.Spec C12.PortModel.
 Extraction "model.ml" ext_base
   sexp_utf8_initial_byte_count sexp_utf8_char_byte_count sexp_utf8_encode_char sexp_string_utf8_ref
   verif_c12_unbox_character verif_c12_make_character
   lead_count width encode decode_at string_length index_to_cursor cursor_to_index string_ref string_set
-  substring string_copy string_append make_string of_utf8_shared to_utf8 slice
-  cursor_next cursor_prev cursor_end step run spec_step spec_run.
+  substring string_copy string_append string_concatenate make_string of_utf8_shared to_utf8 slice
+  cursor_next cursor_prev cursor_end step run spec_step spec_run
+  read_byte read_char peek_char read_string read_line open_string_port open_fd_port pending
+  write_char write_chars out_bytes open_output_string.
